@@ -59,11 +59,11 @@ Proof.
   eapply okR_weaken; [apply num_loop_ok; [assumption|lia]| |auto]. intros r ->. reflexivity.
 Qed.
 
-(* ---- hash *)
-Definition hash_ref (l : list byte) (h : N) : N := fold_left (fun h x => (h + (31 * h + sext32 x)) mod W32) l h.
+(* ---- hash (any character type) *)
+Definition hash_ref (ct : cty) (l : list byte) (h : N) : N := fold_left (fun h x => (h + (31 * h + sext32 ct x)) mod W32) l h.
 
-Lemma hash_loop_ok v k i h : valid_view m v -> i + N.of_nat k = vlen v ->
-  okR (hash_loop m v k i h) (fun r => r = hash_ref (skipn (N.to_nat i) (vtext m v)) h) (within v).
+Lemma hash_loop_ok ct v k i h : valid_view m v -> i + N.of_nat k = vlen v ->
+  okR (hash_loop m ct v k i h) (fun r => r = hash_ref ct (skipn (N.to_nat i) (vtext m v)) h) (within v).
 Proof.
   intros Hv. pose proof (vtext_length m v Hv) as HL.
   revert i h; induction k as [|k IH]; intros i h Hk; cbn [hash_loop].
@@ -71,8 +71,8 @@ Proof.
   - eapply okR_bind; [apply rd_ok; [exact Hv|lia]|]. intros x ->.
     rewrite (skipn_cons_bat (vtext m v) i) by lia. unfold hash_ref at 1. cbn [fold_left]. apply IH. lia.
 Qed.
-Lemma hash_view_ok v : valid_view m v ->
-  okR (hash_view m v) (fun r => r = hash_ref (vtext m v) 0) (within v).
+Lemma hash_view_ok ct v : valid_view m v ->
+  okR (hash_view m ct v) (fun r => r = hash_ref ct (vtext m v) 0) (within v).
 Proof. intros Hv. unfold hash_view. eapply okR_weaken; [apply hash_loop_ok; [assumption|lia]| |auto]. intros r ->. reflexivity. Qed.
 End Num.
 
